@@ -656,9 +656,19 @@ func readUnion(tr *tokenReader) (Union, error) {
 			nextCommentLines = []string{}
 			nextCommentTags = []Tag{}
 
-			// This is a close curly-- we must advance past it or the union
-			// will read it and believe it is complete
-			tr.Next()
+			// This is the branch's own close curly-- we must advance past it or the
+			// union will read it and believe it is complete. The token that follows
+			// is kept: it may be the union's close curly, and if there is none the
+			// union was never closed.
+			// (the branch parser may have un-read its close curly: drop that first)
+			tr.keepNextToken = false
+			if !tr.Next() {
+				if err := tr.Err(); err != nil {
+					return union, err
+				}
+				return union, readError(tr.nextToken, "union definition ended early")
+			}
+			tr.UnNext()
 			skipEndOfLineComments(tr)
 			optNewline(tr)
 
